@@ -456,11 +456,28 @@ func c16R5(c *Ctx, r *Report) {
 			}
 			found = true
 			// on the createNewRevIDSkipped-true edge every success return passes a Remove
+			// the 'revision id kept' flag: the cell that receives the boolean result of documentUpdateFunc (identified by that role)
+			keptCells := map[ssa.Value]bool{}
+			for _, duf := range c.Calls(lit, false, nameIs("(*db.DatabaseCollectionWithUser).documentUpdateFunc")) {
+				if refs := duf.(*ssa.Call).Referrers(); refs != nil {
+					for _, rf := range *refs {
+						if ex, isEx := rf.(*ssa.Extract); isEx && isBoolType(ex.Type()) {
+							if exRefs := ex.Referrers(); exRefs != nil {
+								for _, u := range *exRefs {
+									if st, isSt := u.(*ssa.Store); isSt && st.Val == ssa.Value(ex) {
+										keptCells[rootAddr(st.Addr)] = true
+									}
+								}
+							}
+						}
+					}
+				}
+			}
 			var skipTrue []Edge
 			for _, i := range Ifs(lit) {
 				v, pos := BoolTest(i.Cond)
 				if ad, ok := loadOf(v); ok {
-					if al, ok := rootAddr(ad).(*ssa.Alloc); ok && al.Comment == "createNewRevIDSkipped" {
+					if al, ok := rootAddr(ad).(*ssa.Alloc); ok && keptCells[al] {
 						if pos {
 							skipTrue = append(skipTrue, Edge{i.Block(), 0})
 						} else {
